@@ -56,6 +56,15 @@ type verifC17 struct {
 	desc     *grpc.StreamDesc
 	ctx      context.Context
 	shortErr error
+	alters   map[int]bool // layers whose interceptor passes a different option and method onward
+}
+
+// alter: what an altering interceptor at the given layer passes onward; the
+// expectation for the next hop moves with it.
+func (c *verifC17) alter(layer int) (string, grpc.CallOption) {
+	c.method = c.method + "+"
+	c.opt = &verifOpt{id: 100 + layer}
+	return c.method, c.opt
 }
 
 func verifSameOpts(opts []grpc.CallOption, want grpc.CallOption) bool {
@@ -73,6 +82,10 @@ func (c *verifC17) unary(layer int, forward bool) grpc.UnaryClientInterceptor {
 		if !forward {
 			return c.shortErr
 		}
+		if c.alters[layer] {
+			m2, o2 := c.alter(layer)
+			return invoker(ctx, m2, req, reply, cc, o2)
+		}
 		return invoker(ctx, method, req, reply, cc, opts...)
 	}
 }
@@ -87,6 +100,10 @@ func (c *verifC17) stream(layer int, forward bool) grpc.StreamClientInterceptor 
 		zv.Assert(ctx == c.ctx, "stream-context-unchanged")
 		if !forward {
 			return nil, c.shortErr
+		}
+		if c.alters[layer] {
+			m2, o2 := c.alter(layer)
+			return streamer(ctx, desc, cc, m2, o2)
 		}
 		return streamer(ctx, desc, cc, method, opts...)
 	}
@@ -104,7 +121,7 @@ func Verif_C17_Chain() {
 	base := &verifBase{err: errors.New("base error"), stream: &verifStream{id: 7}}
 	c := &verifC17{method: zv.String("method", zv.Param("methodcap", 3)), req: &verifOpt{id: 1}, resp: &verifOpt{id: 2},
 		opt: &verifOpt{id: 3}, desc: &grpc.StreamDesc{StreamName: "s"}, ctx: context.WithValue(context.Background(), "k", "v"),
-		shortErr: errors.New("short-circuit")}
+		shortErr: errors.New("short-circuit"), alters: map[int]bool{}}
 	var ch grpc.ClientConnInterface = base
 	if realCC {
 		cc := &grpc.ClientConn{}
@@ -119,6 +136,7 @@ func Verif_C17_Chain() {
 		hasU := zv.Bool(fmt.Sprintf("unary-int#%d", i))
 		hasS := zv.Bool(fmt.Sprintf("stream-int#%d", i))
 		fw := zv.Bool(fmt.Sprintf("forwards#%d", i))
+		c.alters[i] = zv.Bool(fmt.Sprintf("alters-options#%d", i))
 		var ui grpc.UnaryClientInterceptor
 		var si grpc.StreamClientInterceptor
 		if hasU {
@@ -174,6 +192,7 @@ func Verif_C17_Chain() {
 	} else {
 		err = ch.Invoke(c.ctx, c.method, c.req, c.resp, c.opt)
 	}
+	// c.method / c.opt now hold what the innermost altering interceptor passed on
 	zv.Reach("called")
 	zv.Observe("events", len(c.events), len(want), reachesBase)
 	zv.Assert(len(c.events) == len(want), "each-applicable-interceptor-exactly-once")
